@@ -779,7 +779,10 @@ func (h *vhandler) OnClose(c Conn, err error) Action {
 	}
 	vc := v.(*vconn)
 	closeAct := None
-	if vc.spec.stopOn == "OnClose" {
+	// (in the lives whose shutdown is requested from OnClose every OnClose answers Shutdown, also those of the final
+	// sweep over the connections that are still open)
+	allShutdown := h.cfg != nil && h.cfg.stopSrc == "OnClose"
+	if vc.spec.stopOn == "OnClose" || allShutdown {
 		closeAct = Shutdown
 	}
 	h.rec.emit("Close", "c", vc.spec.id, "h", vc.h, "action", int(closeAct), "g", g, "err", errClass(err), "ib", c.InboundBuffered(), "consumed", vc.consumed)
@@ -805,7 +808,7 @@ func (h *vhandler) OnClose(c Conn, err error) Action {
 		n, werr := c.Write([]byte("bye"))
 		h.rec.emit("CloseWrite", "c", vc.spec.id, "n", n, "err", errClass(werr))
 	}
-	if vc.spec.stopOn == "OnClose" {
+	if vc.spec.stopOn == "OnClose" || allShutdown {
 		h.rec.emit("StopReq", "src", "OnClose", "g", g)
 		return Shutdown
 	}
